@@ -150,12 +150,25 @@ func (cs *ContractSet) loadFile(path string) error {
 	for i, l := range lines {
 		loc := fmt.Sprintf("%s:%d", filepath.Base(path), nums[i])
 		if m := reHead.FindStringSubmatch(l); m != nil {
+			isSweepFile := strings.Contains(filepath.Base(path), "_sweep_")
 			if old, ok := cs.ByName[m[2]]; ok {
-				return fmt.Errorf("%s: duplicate contract for %s (first in %s)", loc, m[2], old.File)
+				oldSweep := strings.Contains(filepath.Base(old.File), "_sweep_")
+				switch {
+				case isSweepFile && !oldSweep:
+					// a hand-written contract wins over a generated sweep-only one: skip this block
+					cur = &Contract{Name: m[2], File: path, Invariants: map[int][]Clause{}, Sweep: map[string]bool{}}
+					continue
+				case !isSweepFile && oldSweep:
+					// replace the generated one
+				default:
+					return fmt.Errorf("%s: duplicate contract for %s (first in %s)", loc, m[2], old.File)
+				}
 			}
 			cur = &Contract{Name: m[2], Extern: m[1] == "extern", File: path, Invariants: map[int][]Clause{}, Sweep: map[string]bool{}}
+			if _, had := cs.ByName[cur.Name]; !had {
+				cs.Order = append(cs.Order, cur.Name)
+			}
 			cs.ByName[cur.Name] = cur
-			cs.Order = append(cs.Order, cur.Name)
 			continue
 		}
 		if m := reSpecFunc.FindStringSubmatch(l); m != nil {
